@@ -31,7 +31,14 @@ func (g *Gen) chainEntryJSON() string {
 	svc := func() string { return g.pick(g.U.Services) }
 	switch simkit.Weighted(g.R, []int{18, 8, 30, 20, 20, 4}) {
 	case 0:
-		return mustJSON(M{"Kind": "service-defaults", "Name": svc(), "Protocol": g.pick([]string{"tcp", "http", "http", "http2", "grpc"})})
+		e := M{"Kind": "service-defaults", "Name": svc(), "Protocol": g.pick([]string{"tcp", "http", "http", "http2", "grpc"})}
+		if simkit.Chance(g.R, 25) {
+			delete(e, "Protocol") // an entry without a protocol: the service is tcp whatever proxy-defaults says
+		}
+		if simkit.Chance(g.R, 12) {
+			e["ExternalSNI"] = "ext.example.com" // external services may not have subsets, redirects or failover
+		}
+		return mustJSON(e)
 	case 1:
 		return mustJSON(M{"Kind": "proxy-defaults", "Name": "global", "Config": M{"protocol": g.pick([]string{"tcp", "http", "http"})}})
 	case 2:
@@ -90,7 +97,7 @@ func (C15) Generate(rng *rand.Rand, tier string, runIdx uint64) simkit.Plan {
 		p.Steps = append(p.Steps, Step{Op: "ce.upsert", Text: mustJSON(M{"Kind": "proxy-defaults", "Name": "global", "Config": M{"protocol": "http"}})})
 	}
 	for len(p.Steps) < n {
-		op := []string{"ce.upsert", "ce.upsert-cas", "ce.delete", "ce.delete-cas"}[simkit.Weighted(rng, []int{65, 10, 20, 5})]
+		op := []string{"ce.upsert", "ce.upsert-cas", "ce.delete", "ce.delete-cas", "ce.upsert-status-cas"}[simkit.Weighted(rng, []int{60, 10, 20, 5, 7})]
 		s := Step{Op: op, Text: g.chainEntryJSON()}
 		if strings.HasSuffix(op, "-cas") {
 			s.Idx = g.symIdx()
